@@ -55,6 +55,7 @@ def run(fx, R, tier, lat_deg=None, heights=None):
         R.undecided('F1', 'ECEFConverter', 'anchor vanished or forward map not readable (toECEF / toWGS84 / EarthEllipsoid(a,b))')
         return
     R.used(fwd['fn'], finv, ell[0])
+    check_factories(fx, R)
     # paths of toECEF that return without evaluating the formulas: a stored result may only be re-used when every input the
     # formulas depend on is compared with the stored key (member caches survive the call just like statics)
     X, Y, Z, lat, lon, h = (fwd[k] for k in ('X', 'Y', 'Z', 'lat', 'lon', 'alt'))
@@ -144,6 +145,56 @@ def run(fx, R, tier, lat_deg=None, heights=None):
     alg.check_zero(R, sp.simplify(n - want_n), 'F1', 'ECEFConverter::toECEF:latlon-roles', 'altitude direction is %s, expected (cos lat cos lon, cos lat sin lon, sin lat)' % (n.T.tolist(),),
                    'normal at (lat, lon)', loc)
     check_inverse(fx, R, finv, fwd)
+
+
+def check_factories(fx, R):
+    """F10: the library's own factories of geodetic coordinates (how a caller - and ENUConverter for a 2-D fix - builds the input of toECEF) put every argument in the field it is named after."""
+    la, lo, al = sp.Symbol('LAT', real=True), sp.Symbol('LON', real=True), sp.Symbol('ALT', real=True)
+    fs = [f for f in fx.functions.values() if f['q'] == 'romea::core::makeGeodeticCoordinates' and f.get('body') is not None]
+    for f in sorted(fs, key=lambda f: len(f['params'])):
+        R.used(f)
+        args = []
+        for p_ in f['params']:
+            n_ = p_['name'].lower()
+            if (p_.get('t') or {}).get('c') == 'rec':
+                args.append({'latitude': la, 'longitude': lo})
+            elif 'lat' in n_:
+                args.append(la)
+            elif 'lon' in n_:
+                args.append(lo)
+            elif 'alt' in n_ or 'height' in n_:
+                args.append(al)
+            else:
+                args = None
+                break
+        inst = 'makeGeodeticCoordinates(%s)' % ', '.join(p_['name'] for p_ in f['params'])
+        if args is None:
+            R.undecided('F10', inst, 'a parameter is not named after latitude / longitude / altitude')
+            continue
+        try:
+            sts = sym.Reader(fx).run(f, args=args)
+        except sym.Unsupported as u:
+            R.undecided('F10', inst, str(u))
+            continue
+        bad = None
+        for st in sts:
+            r_ = st.ret if isinstance(st.ret, dict) else None
+            if r_ is None:
+                bad = bad or ('undecided', 'result not readable as a coordinates record')
+                continue
+            for fld, want in (('latitude', la), ('longitude', lo), ('altitude', al)):
+                if r_.get(fld) != want and want in set().union(*[a_.values() if isinstance(a_, dict) else [a_] for a_ in args]):
+                    got = r_.get(fld)
+                    bad = ('violated', 'the %s field of the record built by %s receives %s: the arguments are handed over in another order than the scalar factory takes them (latitude, longitude, altitude), so '
+                           'a fix built through this overload - the path ENUConverter::toENU(WGS84Coordinates) uses - has its angles exchanged before toECEF() ever sees them' % (
+                               fld, inst, {la: 'the LATITUDE argument', lo: 'the LONGITUDE argument', al: 'the ALTITUDE argument'}.get(got, str(got)[:60])))
+                    break
+        if bad and bad[0] == 'violated':
+            R.violated('F10', inst + ':field-routing', bad[1], fx.rel(f['loc']), 'E-SIB')
+        elif bad:
+            R.undecided('F10', inst, bad[1])
+        else:
+            R.holds('F10', inst, 'latitude, longitude and altitude each reach the field of their name', fx.rel(f['loc']), 'E-SIB')
 
 
 def check_inverse(fx, R, f, fwd):
